@@ -89,6 +89,7 @@ func dedupFacts(fs []ref.Pred) []ref.Pred {
 
 func genC05(r *rand.Rand, run int, tier string) *vm.Plan {
 	g := gen.New(r)
+	g.BoundaryInts()
 	p := &vm.Plan{}
 	nprog := 1 + r.Intn(3)
 	for k := 0; k < nprog; k++ {
